@@ -1,5 +1,6 @@
 """BUILDER: slot coverage in build() and setter semantics, shared by C06 (boot information) and C12 (header)."""
 from .. import an
+from .. import chain as CH
 from .. import guard as G
 from .. import layout as L
 from .. import mir as M
@@ -78,11 +79,13 @@ def analyse_build(ctx, F, crate, builder_adt, end_adt_path, end_kind, header_che
                 how = "loop over &self.%s, one push per element in iteration (= insertion) order" % f["name"]
                 why = "iterator ok=%s once per iteration=%s guard=%s" % (it_ok, once, guard)
             else:
-                asref = ("call", None)
-                ar = [s for s in subterms(v) if len(s) >= 3 and s[0] == "call" and cn(s[1]) == "core::option::Option::as_ref" and s[2] == (src,)]
-                guard = bool(ar) and ("cmp", "Eq", ("discr", ar[0]), ("c", 1)) in facts
+                # `if let Some(tag) = self.slot.as_ref()` / `= &self.slot` / match: after INLINE all are a test of the slot's discriminant
+                slot = fld(arg(1), i)
+                guard = CH.guarded_by_variant(facts, slot, 1)
                 nearest = N_nearest(A, bb)
-                own_ok = bool(ar) and nearest == [("cmp", "Eq", ("discr", ar[0]), ("c", 1))]
+                own_ok = len(nearest) == 1 and CH.is_discr_fact(nearest[0], slot, 1)
+                # and the pushed bytes are those of the slot's payload
+                guard = guard and any(s == CH.payload_of(slot, 1) or s == ("dc", slot, 1) for s in subterms(v))
                 not_in_loop = not any(bb in b.loop_blocks(h, t) for (t, h) in loops)
                 ok = guard and own_ok and not_in_loop
                 how = "pushed exactly when self.%s is Some (own guard = Some-test of the same slot)" % f["name"]
